@@ -134,7 +134,7 @@ func solveOne(query string, timeoutS int, seed int, dir string, tag string) solv
 	if err := os.WriteFile(file, []byte(query), 0o644); err != nil {
 		return solveResult{answer: "error", out: err.Error()}
 	}
-	stage1 := 3
+	stage1 := 5
 	if timeoutS < stage1 {
 		stage1 = timeoutS
 	}
